@@ -598,3 +598,68 @@ def install(spec: Spec):
 
     spec.interference['process'] = Interference('process', havoc=['*'], keep=spec.interference['handlers'].keep, rely=spec.interference['handlers'].rely,
                                                  inv=spec.interference['runloop'].inv)
+
+    # ------------------------------------------------------------------ on() / expect() (C18)
+    spec.define('event_key', ['p'], "'*' if p == '*' else (p.__name__ if isinstance(p, type) else str(p))")
+    spec.fn('EventBus.on', file=S, qual='EventBus.on', params={'self': 'EventBus', 'event_pattern': 'any', 'handler': 'Handler'}, returns='NoneType', trusted=True,
+            modifies=[('handlers', 'self')],
+            ensures=[('appended_under_its_key', "event_key(event_pattern) in self.handlers and self.handlers[event_key(event_pattern)] == "
+                                                "(old(self.handlers)[event_key(event_pattern)] if event_key(event_pattern) in old(self.handlers) else []) + [handler]", ['C18', 'C01']),
+                     ('other_keys_untouched', "forall(lambda k: implies(k != event_key(event_pattern), (k in self.handlers) == (k in old(self.handlers)) and "
+                                              "implies(k in self.handlers, self.handlers[k] == old(self.handlers)[k])), 'str')", ['C18'])],
+            raises=[RaisesClause('AssertionError', label='invalid_pattern_or_handler', ensures=[('nothing_registered', 'self.handlers == old(self.handlers)', ['C18'])])],
+            notes='registration: appends the handler to handlers[key(pattern)] (key = "*", the class name, or the string); contract assumed (body uses defaultdict and name bookkeeping)')
+    spec.methods[('EventBus', 'on')] = 'EventBus.on'
+
+    spec.ghosts['expect_handler'] = parse_ty('any')    # the temporary handler registered by the expect() call in progress (task-owned)
+
+    def expect_on_pre(ex, n):
+        ex.ghost_set('expect_handler', coerce(ex.eval(n.args[1]), ANY))
+
+    KEY = 'event_key(event_type)'
+    MINE = lambda h: "(" + KEY + " in " + h + " and expect_handler in " + h + "[" + KEY + "])"
+    spec.interference['expect'] = Interference('expect', havoc=['*'], keep=spec.interference['default'].keep,
+        rely=[('others_do_not_touch_my_subscription', MINE('self.handlers') + " == " + MINE('old(self.handlers)'), []),
+              ('my_handler_listed_at_most_once', "implies(" + KEY + " in self.handlers, count_le1(self.handlers[" + KEY + "], expect_handler))", [])])
+
+    spec.specfuns['allocated_at_entry'] = lambda ex, x: mk_bool(ex.is_alloc(x.term, ex.entry['now']))
+    spec.builtins['inspect.currentframe'] = lambda ex, n, awaited, recv=None: ex.fresh_obj('Frame', 'frame')
+
+    spec.fn('EventBus.expect', file=S, qual='EventBus.expect', is_async=True, interference='expect', cancel_must_propagate=True,
+            params={'self': 'EventBus', 'event_type': 'any', 'include': 'any', 'exclude': 'any', 'predicate': 'any', 'timeout': 'opt[real]'}, returns='BaseEvent',
+            requires=[('in_loop', 'loop_running()', []),
+                      ('type_is_name_or_class', "isinstance(event_type, str) or isinstance(event_type, type)", []),
+                      ('registered_handlers_already_exist', "implies(" + KEY + " in self.handlers, forall(lambda i: implies(0 <= i and i < len(self.handlers[" + KEY + "]), "
+                                                            "allocated_at_entry(self.handlers[" + KEY + "][i]))))", [])],
+            assume_asserts=['current_frame'],
+            modifies=[('handlers', 'self'), ('fut_done', '*'), ('fut_result', '*'), ('__name__', '*'), ('task_done', '*')], ghost_modifies=['expect_handler'],
+            callsites={'self.on': {'pre': expect_on_pre, 'ghost_writes': ['expect_handler']}},
+            exits_ensure=[('unsubscribed_on_every_exit', "not " + MINE('self.handlers'), ['C18'])],
+            raises=[RaisesClause('TimeoutError', label='no_match_in_time', when='timeout is not None', tags=['C18'], origin='asyncio.wait_for'),
+                    RaisesClause('CancelledError', label='cancelled', tags=['C18']),
+                    RaisesClause('AssertionError', label='invalid_pattern', origin='call:EventBus.on')])
+
+    inc = z3.Function('user_include', Ref, Ref, z3.BoolSort())
+
+    def user_pred(which):
+        def model(ex, n, awaited, recv=None):
+            f = ex.lookup(which)
+            e = ex.eval(n.args[0])
+            if ex.choice([None, None], which + ' returns/raises') == 1:
+                from pyvc.core import RaiseSig
+                raise RaiseSig(ex.fresh_exc('Exception', base='predicate_error'), 'user:' + which)
+            return mk_bool(inc(coerce(f, ANY).term, e.term))
+        return model
+
+    def sf_holds(ex, f, e):
+        return mk_bool(inc(coerce(f, ANY).term, e.term))
+    spec.specfuns['holds'] = sf_holds
+
+    spec.fn('EventBus.expect.notify', file=S, qual='EventBus.expect.<locals>.notify_expect_handler', params={'event': 'BaseEvent'}, returns='NoneType',
+            free={'future': 'Future', 'include': 'any', 'exclude': 'any'},
+            modifies=[('fut_done', 'future'), ('fut_result', 'future')],
+            callsites={'include(event)': {'model': user_pred('include')}, 'exclude(event)': {'model': user_pred('exclude')}},
+            exits_ensure=[('resolves_only_with_a_matching_event', 'implies(future.fut_done and not old(future.fut_done), holds(include, event) and not holds(exclude, event) and future.fut_result is event)', ['C18']),
+                          ('first_match_wins', 'implies(old(future.fut_done), future.fut_done and future.fut_result is old(future.fut_result))', ['C18'])],
+            ensures=[('resolves_with_first_match', 'implies(not old(future.fut_done) and holds(include, event) and not holds(exclude, event), future.fut_done and future.fut_result is event)', ['C18'])],
+            raises=[RaisesClause('Exception', label='predicate_raised', origin='user:', tags=['C18'])])
